@@ -1,5 +1,6 @@
 import SgModel.Driver.Util
 import SgModel.Model.Persist
+import SgModel.Driver.PersistSyntax
 /-!
 Driver for the Persist model (C16, C32).  One request line per case:
 
@@ -23,135 +24,7 @@ Driver for the Persist model (C16, C32).  One request line per case:
   dump  := <nodes>/<edges>   nodes := <id>:<labels>:<props>(,…)* | -
                              edges := <id>:<src>:<tgt>:<ty>:<props>(,…)* | -
 -/
-open SgModel SgModel.Driver SgModel.Persist
-
-def parseNats? (sep : String) (s : String) : Option (List Nat) :=
-  if s == "-" then some [] else (s.splitOn sep).mapM (·.toNat?)
-
-def parseProps? (s : String) : Option Props :=
-  if s == "-" then some []
-  else (s.splitOn "+").mapM (fun kv => match kv.splitOn "=" with
-    | [k, v] => do pure (← k.toNat?, ← v.toNat?)
-    | _ => none)
-
-def parseOp? (s : String) : Option Op :=
-  match s.splitOn ":" with
-  | ["cn", id, ls, ps] => do pure (.createNode (← id.toNat?) (← parseNats? "+" ls) (← parseProps? ps))
-  | ["ce", id, a, b, ty, ps] => do
-      pure (.createEdge (← id.toNat?) (← a.toNat?) (← b.toNat?) (← ty.toNat?) (← parseProps? ps))
-  | ["dn", id] => do pure (.deleteNode (← id.toNat?))
-  | ["de", id] => do pure (.deleteEdge (← id.toNat?))
-  | ["un", id, ps] => do pure (.updateNode (← id.toNat?) (← parseProps? ps))
-  | ["ue", id, ps] => do pure (.updateEdge (← id.toNat?) (← parseProps? ps))
-  | _ => none
-
-def parseOps? (s : String) : Option (List Op) :=
-  if s == "-" then some [] else (s.splitOn ";").mapM parseOp?
-
-def reqOf (t : Nat) : Op → Req
-  | .createNode id ls ps => .createNode t id ls ps
-  | .createEdge id a b ty ps => .createEdge t id a b ty ps
-  | .deleteNode id => .deleteNode t id
-  | .deleteEdge id => .deleteEdge t id
-  | .updateNode id ps => .updateNode t id ps
-  | .updateEdge id ps => .updateEdge t id ps
-
-def parseReq? (s : String) : Option Req :=
-  match s.splitOn "@" with
-  | [t, op] => do pure (reqOf (← t.toNat?) (← parseOp? op))
-  | _ => none
-
-def parseReqs? (s : String) : Option (List Req) :=
-  if s == "-" then some [] else (s.splitOn ";").mapM parseReq?
-
-def parseOptNat? (s : String) : Option (Option Nat) :=
-  if s == "-" then some none else s.toNat?.map some
-
-def parseBit? (s : String) : Option Bool :=
-  if s == "1" then some true else if s == "0" then some false else none
-
-def parseCfg? (s : String) : Option Cfg :=
-  match s.splitOn "." with
-  | [r, e, n, m] => do pure ⟨← parseBit? r, ← parseBit? e, ← parseOptNat? n, ← parseOptNat? m⟩
-  | _ => none
-
-def parseCfgs? (s : String) : Option (List (Nat × Cfg)) :=
-  if s == "-" then some []
-  else (s.splitOn ",").mapM (fun tc => match tc.splitOn "=" with
-    | [t, c] => do pure (← t.toNat?, ← parseCfg? c)
-    | _ => none)
-
-def cfgsFn (l : List (Nat × Cfg)) (t : Nat) : Cfg :=
-  match l.find? (fun p => p.1 == t) with
-  | some p => p.2
-  | none => { registered := false }
-
-def showNats (l : List Nat) : String :=
-  if l.isEmpty then "-" else joinWith "+" (l.map toString)
-def showProps (p : Props) : String :=
-  if p.isEmpty then "-" else joinWith "+" (p.map (fun kv => s!"{kv.1}={kv.2}"))
-def showList' (l : List String) : String := if l.isEmpty then "-" else joinWith "," l
-
-def showKV (kv : KV) : String :=
-  showList' (kv.nodes.map (fun (id, v) => s!"{id}:{showNats v.labels}:{showProps v.props}"))
-  ++ "/" ++
-  showList' (kv.edges.map (fun (id, v) => s!"{id}:{v.src}:{v.tgt}:{v.ty}:{showProps v.props}"))
-
-def parseNodeEnt? (s : String) : Option (Nat × NodeVal) :=
-  match s.splitOn ":" with
-  | [id, ls, ps] => do pure (← id.toNat?, ⟨← parseNats? "+" ls, ← parseProps? ps⟩)
-  | _ => none
-def parseEdgeEnt? (s : String) : Option (Nat × EdgeVal) :=
-  match s.splitOn ":" with
-  | [id, a, b, ty, ps] => do
-      pure (← id.toNat?, ⟨← a.toNat?, ← b.toNat?, ← ty.toNat?, ← parseProps? ps⟩)
-  | _ => none
-def parseKV? (s : String) : Option KV :=
-  match s.splitOn "/" with
-  | [n, e] => do
-      let nodes ← (if n == "-" then some [] else (n.splitOn ",").mapM parseNodeEnt?)
-      let edges ← (if e == "-" then some [] else (e.splitOn ",").mapM parseEdgeEnt?)
-      pure ⟨nodes, edges⟩
-  | _ => none
-
-def showRes : Res → String
-  | .ok => "ok"
-  | .err .notFound => "notfound"
-  | .err .denied => "denied"
-  | .err .quota => "quota"
-  | .err .fuel => "fuel"
-def parseRes? (s : String) : Option Res :=
-  match s with
-  | "ok" => some .ok
-  | "notfound" => some (.err .notFound)
-  | "denied" => some (.err .denied)
-  | "quota" => some (.err .quota)
-  | _ => none
-def parseResults? (s : String) : Option (List Res) :=
-  if s == "-" then some [] else (s.splitOn ",").mapM parseRes?
-
-def pointName : Pc → String
-  | .lock => "locked"
-  | .check => "checked"
-  | .log => "logged"
-  | .store => "stored"
-  | .count => "counted"
-  | .ret => "ret"
-  | .done => "done"
-
-def showResp : Resp → String
-  | .ok => "ok"
-  | .nodeCreated id => s!"n{id}"
-  | .edgeCreated id => s!"e{id}"
-  | .error => "err"
-def parseResp? (s : String) : Option Resp :=
-  if s == "ok" then some .ok
-  else if s == "err" then some .error
-  else if s.startsWith "n" then (s.drop 1).toString.toNat?.map .nodeCreated
-  else if s.startsWith "e" then (s.drop 1).toString.toNat?.map .edgeCreated
-  else none
-def parseResps? (s : String) : Option (List Resp) :=
-  if s == "-" then some [] else (s.splitOn ",").mapM parseResp?
+open SgModel SgModel.Driver SgModel.Persist SgModel.Driver.PersistSyntax
 
 def doCrash (I : Impl) (cfg : Cfg) (ops : List Op) (k : Nat) : String :=
   let o := crashRun I cfg ops k {}
